@@ -32,7 +32,7 @@ impl Prop for C06 {
         "cases = C05's generated worlds and steps, plus edits that are never notified and notifications for unrelated / unknown entries. After every barrier, from the loader/source log of the pass(es): \
          (1) an asset is re-loaded by the reloader only if the shadow dependency graph (what its loads were observed to touch, including failed attempts) connects it to a notified entry, and at most once per pass; \
          (2) the reloader thread reads the source only as part of such a reload; (3) reload ids start at NEVER and change exactly once per successful rewrite (polled after every hot_reload call), never for unaffected or failed ones, \
-         whose values also stay bit-identical; (4) ReloadWatcher::reloaded and reloaded_global answer true exactly when at least one rewrite happened since they were last asked, then false; (5) in about one case in eight a racing phase: after the k-th true from a polling watcher the value read is at least version k. \
+         whose values also stay bit-identical; (4) ReloadWatcher::reloaded and reloaded_global answer true exactly when at least one rewrite happened since they were last asked, then false - for watchers created at the start and asked now and then, and for watchers created right before each step and first asked after it; every watcher's last_reload_id() is the handle's; (5) in about one case in eight a racing phase: after the k-th true from a polling watcher the value read is at least version k. \
          non-trivial = a step with both reloaded and untouched cached assets, or an un-notified edit of a file some cached asset depends on, or a failed reload; distinct = different canonical JSON"
             .into()
     }
@@ -107,6 +107,9 @@ impl Prop for C06 {
             }
             let deps_before = union(&r.world.shadow_deps(), &r.world.shadow_failed_extra());
             let cached_before = r.cached();
+            // watchers created now and not asked before the step is over: they report exactly the rewrites of this step
+            let mut fresh_watchers: Vec<(AKey, assets_manager::ReloadWatcher<'static>)> =
+                r.watches.keys().filter_map(|k| r.new_watcher(k).map(|(w, _)| (k.clone(), w))).collect();
             let notes = r.apply_edits(step);
             let sent = r.send(step, notes);
             if !r.barrier() {
@@ -250,6 +253,28 @@ impl Prop for C06 {
             // They are not asked after every step, so that rewrites of several steps accumulate.
             let ask = step.order % 3 != 0 || sn + 1 == c.steps.len();
             let any = r.world.cache.as_any_cache();
+            // every watcher names the asset's current reload id, asked or not
+            for key in keys.iter() {
+                let w = &r.watches[key];
+                let now = crate::world::typed_reload_id(any, key.0, &key.1);
+                if now.is_some() && Some(w.watcher.last_reload_id()) != now {
+                    out.fail("watcher-id-mismatch", format!("step {sn}: ReloadWatcher::last_reload_id() of {key:?} is {:?}, the handle's last_reload_id() is {now:?}", w.watcher.last_reload_id()));
+                    return out;
+                }
+            }
+            for (key, fw) in fresh_watchers.iter_mut() {
+                let Some(w) = r.watches.get(key) else { continue };
+                if crate::world::typed_reload_id(any, key.0, &key.1).is_none() {
+                    continue;
+                }
+                let expect = w.growths > 0;
+                let got = fw.reloaded();
+                let again = fw.reloaded();
+                if got != expect || again {
+                    out.fail("watcher-mismatch", format!("step {sn}: a watcher of {key:?} created right before the step and first asked after it: the asset was rewritten {} time(s) in the step, reloaded() = {got}, asked again = {again}", w.growths));
+                    return out;
+                }
+            }
             for key in keys.iter().filter(|_| ask) {
                 let w = r.watches.get_mut(key).unwrap();
                 let expect = w.since_asked > 0;
